@@ -17,7 +17,7 @@ PRE = p_c01.PRE
 
 def gen_case(rng, thorough=False):
     c = p_c01.gen_case(rng, thorough)
-    c['nr'] = rng.choice([8, 8, 12, 16, 20, 40, 8, 12, rng.randint(1, 25) * 4, rng.choice([5, 6, 7, 9, 10, 13, 22, 1002 if thorough else 14])])
+    c['nr'] = rng.choice([8, 8, 12, 16, 20, 40, 8, 12, rng.randint(2, 25) * 4, rng.choice([5, 6, 7, 9, 10, 13, 22, 1002 if thorough else 14])])
     c['route'] = rng.choice(['class', 'writePotentials'])
     if rng.random() < 0.07: c['pots'] = []
     return c
@@ -25,7 +25,7 @@ def gen_case(rng, thorough=False):
 def run_recorded(case, fault_at=None):
     from atsim.potentials import writePotentials
     from atsim.potentials.pair_tabulation import DLPoly_PairTabulation
-    rec = layout.Recorder(); rec.fault_at = fault_at
+    rec = layout.Recorder(); rec.fault_at = fault_at; rec.zero_every = case.get('zero_every')
     pots = p_c01.build_potentials(case, rec)
     out = layout.RecFile(rec)
     try:
@@ -84,7 +84,7 @@ def correspond(ctx):
             if exc != 'CfgErr': dis.append({'case': c, 'what': 'potable: row count %d should be a configuration error, got %r' % (c['nr'], exc)})
             continue
         if exc: dis.append({'case': c, 'what': 'potable: valid model gave %s' % exc}); continue
-        d = p_c01.compare_numeric(toks, p_c01.synth_events(tr, tab.potentials), c['labels'], text, tol=2e-7)
+        d = p_c01.compare_numeric(toks, synth_accumulated(tr, tab.potentials, c), c['labels'], text, tol=2e-7)
         if d: dis.append({'case': c, 'what': 'potable route: ' + d})
     allc = cases + pcases
     dist = {'recorded_cases': len(cases), 'potable_cases': len(pcases), 'rejected_row_counts': sum(1 for c in allc if c['nr'] % 4),
@@ -94,6 +94,26 @@ def correspond(ctx):
             'rule': 'as C01 with row counts both divisible and not divisible by four (rejected ones must raise and write nothing), API and potable (DL_POLY and DLPOLY targets); '
                     'whole file text compared with the rendered model; non-trivial = at least one potential; distinct by canonical JSON',
             'samples': cases[:2] + pcases[:1], 'distribution': dist, 'disagreements': dis[:20], 'oracle_cases': allc}
+
+def synth_accumulated(trace, pots, case):
+    """the model's evaluations on the real Potential objects, at the separations the writer really reaches: it accumulates
+    r += delpot in binary64, which at a multi-range boundary lying on the grid can fall an ulp to either side of the exact k*delpot
+    (the model is over exact rationals; which side is taken is the implementation's rounding, not part of the property)"""
+    import fractions
+    nr = case['nr']; cutoff = float(case['cutoff'])
+    mesh = cutoff / (nr - 4.0)
+    meshq = fractions.Fraction(case['cutoff']) / (nr - 4)
+    acc = [0.0]
+    for _ in range(nr): acc.append(acc[-1] + mesh)
+    evs = []
+    for (fn, kind, qarg) in trace:
+        k = int(round(qarg / meshq))
+        off = qarg - k * meshq
+        x = acc[k] if off == 0 else acc[k] + float(off)
+        p = pots[fn[1]]
+        v = p.potentialFunction.deriv(x) if kind == 1 else p.energy(x)
+        evs.append(('eval', tuple(fn), kind, x, v))
+    return evs
 
 def parse_dlpoly(text):
     lines = text.split('\n')
@@ -127,7 +147,8 @@ def oracle(case):
         if exc: return ['valid model: %s' % exc]
         species = [(a, b) for (a, b, _) in case['potable']]
         pots = tab.potentials
-        en = lambda bi, x: pots[bi].energy(x)
+        # the writer accumulates r in binary64: on a range boundary lying on the grid it may be an ulp to either side of k*delpot
+        en = lambda bi, x: (pots[bi].energy(x), pots[bi].energy(x * (1 - 1e-12) - 1e-300), pots[bi].energy(x * (1 + 1e-12) + 1e-300))
         def fr(bi, x, f):
             num = -x * p_c01.richardson(pots[bi].energy, x, 1e-4)
             try:
@@ -147,7 +168,7 @@ def oracle(case):
             for e in evs:
                 if e[1] == (0, bi, 0) and e[2] == kind and abs(e[3] - x) <= 1e-9 * max(1.0, abs(x)): return e
         def en(bi, x):
-            e = find(bi, 0, x); return e[4] if e else float('nan')
+            e = find(bi, 0, x); return (e[4] if e else float('nan'),)
         def fr(bi, x, f):
             if case['pots'][bi][2]:
                 e = find(bi, 1, x)
@@ -172,7 +193,7 @@ def oracle(case):
         for k in range(1, nr + 1):
             x = k * mesh
             ee = en(bi, x)
-            if not (abs(b['e'][k - 1] - ee) <= 6e-8 * max(1.0, abs(ee))): fails.append('block %d: energy %d is %r, V(k*delpot)=%r' % (bi, k, b['e'][k - 1], ee)); break
+            if not any(abs(b['e'][k - 1] - e1) <= 6e-8 * max(1.0, abs(e1)) for e1 in ee): fails.append('block %d: energy %d is %r, V(k*delpot)=%r' % (bi, k, b['e'][k - 1], ee[0])); break
             m = fr(bi, x, b['f'][k - 1])
             if m: fails.append('block %d value %d: %s' % (bi, k, m)); break
     return fails
